@@ -23,6 +23,7 @@ def reset():
         boom_calls={},       # site -> number of calls
         armed={},            # site -> dict(at=k or None, until=k or None, exc=name, fired=0)
         fired=0,             # total number of injected raises
+        env_log=None,        # (tag, settings snapshot) when a check asks for it
     )
 
 
@@ -43,9 +44,25 @@ def disarm(site=None):
         STATE['armed'].pop(site, None)
 
 
+def settings_snapshot():
+    """interpreter / library settings that are global to the process or kept per thread, as a
+    formula sees them in the middle of an evaluation: whatever one evaluation changes for its
+    own duration must not be seen (or taken back) under another thread's evaluation"""
+    import decimal
+    import locale
+    import os
+    import sys
+    import numpy as np
+    ctx = decimal.getcontext()
+    return (sys.getrecursionlimit(), ctx.prec, ctx.rounding, tuple(sorted(np.geterr().items())),
+            os.getcwd(), locale.getlocale(locale.LC_NUMERIC), sys.getswitchinterval())
+
+
 @excel_helper(err_str_params=None)
 def probe(tag, x):
     STATE['probe_log'].append((tag, x))
+    if STATE.get('env_log') is not None:
+        STATE['env_log'].append((tag, settings_snapshot()))
     return x
 
 
